@@ -6,6 +6,7 @@
 //!   zkmc worker                                  (internal) isolated worker for untrusted-input sweeps
 mod common;
 mod edits;
+mod hist;
 mod sweep;
 mod zk;
 mod c01;
